@@ -116,6 +116,7 @@ impl LoadBalancer {
       if !self.state.lock().peers.is_empty() {
         return Ok(());
       }
+      #[cfg(rzmq_verif)] crate::verif::balancer::schedule_point("lb_wait_after_check");
       notify.notified().await;
     }
   }
@@ -136,5 +137,14 @@ impl LoadBalancer {
       .deactivated
       .store(true, std::sync::atomic::Ordering::Release);
     self.notify_waiters.notify_waiters();
+  }
+}
+
+#[cfg(rzmq_verif)]
+impl LoadBalancer {
+  /// Verification facade only: peer uris in list order and the round-robin cursor.
+  pub fn verif_snapshot(&self) -> (Vec<String>, usize) {
+    let state = self.state.lock();
+    (state.peers.iter().map(|p| p.uri.clone()).collect(), state.next_idx)
   }
 }
